@@ -456,6 +456,8 @@ package redis
 //@ ensures {C10} err == nil ==> !(result0.NX && result0.XX)
 //@ ensures {C10} err == nil ==> 0 <= result0.EX && 0 <= result0.PX
 //@ ensures {C10} err == nil ==> expN(result0.EX, result0.PX, result0.EXAT, result0.PXAT) <= 1
+// a non-positive expiry value is an error, whatever the option word
+//@ ensures {C10} (old(oneOptN(args, "EX")) || old(oneOptN(args, "PX")) || old(oneOptN(args, "EXAT")) || old(oneOptN(args, "PXAT"))) && old(argI(args, 1)) < 1 ==> err != nil
 //@ ensures {C05} old(oneOpt(args, "NX")) ==> err == nil && result0.NX && !result0.XX && !result0.GET && !result0.KEEPTTL && result0.EX == 0 && result0.PX == 0
 //@ ensures {C05} old(oneOpt(args, "XX")) ==> err == nil && !result0.NX && result0.XX && !result0.GET && !result0.KEEPTTL && result0.EX == 0 && result0.PX == 0
 //@ ensures {C05} old(oneOpt(args, "GET")) ==> err == nil && !result0.NX && !result0.XX && result0.GET && !result0.KEEPTTL && result0.EX == 0 && result0.PX == 0
@@ -480,6 +482,7 @@ package redis
 //@   invariant {C05} old(oneOptN(args, "EX")) || old(oneOptN(args, "PX")) ==> args.index == old(args.index) || args.index == old(args.index) + 2
 //@   invariant {C10} !(opt.NX && opt.XX) && 0 <= opt.EX && 0 <= opt.PX
 //@   invariant {C10} expN(opt.EX, opt.PX, opt.EXAT, opt.PXAT) <= 1
+//@   invariant {C10} (old(oneOptN(args, "EX")) || old(oneOptN(args, "PX")) || old(oneOptN(args, "EXAT")) || old(oneOptN(args, "PXAT"))) && old(argI(args, 1)) < 1 ==> args.index == old(args.index)
 //@   invariant {C05} !old(hasArg(args, 0)) ==> args.index == old(args.index) && !opt.NX && !opt.XX && !opt.GET && !opt.KEEPTTL && opt.EX == 0 && opt.PX == 0
 //@   decreases len(args.msgs) - args.index
 
